@@ -6,7 +6,8 @@
    and were written from the format document only. *)
 From Coq Require Import NArith ZArith List Bool Lia Permutation.
 From NGS Require Import Val Ints Morton ShardBytes MiniShard ShardFile ShardReader ShardSpecReader
-  ShardCanon MiniShardProofs ShardFileProofs ShardWitness ShardWitnessProofs.
+  ShardCanon MiniShardProofs ShardFileProofs ShardCloseProofs ShardSpecProofs ShardTopProofs
+  ShardWfProofs ShardWitness ShardWitnessProofs.
 Import ListNotations.
 Open Scope N_scope.
 
@@ -32,8 +33,8 @@ Print Assumptions C04_every_id_has_a_rank.
    (delta id, delta offset, size) triples) is the canonical one of the stored
    set: ids strictly increasing from the first identifier of the class,
    payloads concatenated in identifier order, empty entries for gaps.
-   The file level is C04_files_function_of_set below. *)
-Theorem C04_close_canonical_partial : forall sp enc K ops,
+   The file level is C04_close_canonical / C04_files_function_of_set below. *)
+Theorem C04_minishard_close_canonical : forall sp enc K ops,
   K < 2 ^ (sp_s sp + sp_m sp) -> cbits sp < 2 ^ 64 ->
   ops <> [] -> NoDup (map fst ops) ->
   (forall id, In id (map fst ops) -> in_class sp K id) ->
@@ -41,15 +42,14 @@ Theorem C04_close_canonical_partial : forall sp enc K ops,
     ms_run sp enc ms_init ops = (st, map (fun _ => Ok tt) ops) /\
     ms_close sp st = (closed_mini sp enc (K * 2 ^ sp_p sp) ops, Ok tt).
 Proof. exact mini_close_canonical. Qed.
-Print Assumptions C04_close_canonical_partial.
+Print Assumptions C04_minishard_close_canonical.
 
 (* close_canonical, file level: the files after close are a function of the
    SET of stored (identifier, payload) pairs — any two enumerations of the set
    give the same result of ShardedScale.close, for all grids, parameters,
    subsets and orders (proved by induction over the store list with the
    reorder-buffer invariant, then glued through both dictionaries and
-   Shard.close's sorting).  What is NOT proved is the closed form of that
-   function at byte level (header ++ data ++ transposed indices). *)
+   Shard.close's sorting). *)
 Theorem C04_files_function_of_set : forall sp enc ienc, cbits sp < 2 ^ 64 ->
   forall ops1 ops2, ops_valid sp ops1 -> Permutation ops1 ops2 ->
   snd (run_cmc_stores sp enc [] ops1) = map (fun _ => Ok tt) ops1 /\
@@ -58,6 +58,83 @@ Theorem C04_files_function_of_set : forall sp enc ienc, cbits sp < 2 ^ 64 ->
   scale_close sp ienc (fst (run_cmc_stores sp enc [] ops2)).
 Proof. exact order_independent. Qed.
 Print Assumptions C04_files_function_of_set.
+
+(* spec_reads_canonical (no guard any more): for EVERY parameter triple with
+   p + s + m < 2^64 and minishard_bits < 60, every set of chunks with distinct
+   identifiers (< 2^64, rank + 1 < 2^64), every store order, every pair of
+   encoders with left-inverse decoders (raw, or gzip as an oracle; the index
+   encoder maps non-empty input to non-empty output), and shard files below
+   2^64 bytes: the reader written from the format document, applied to the
+   files written by close(), returns exactly the stored bytes of every stored
+   chunk — right file name, minishard index at the minishard's own slot,
+   delta-decoded identifiers and offsets.
+   [session_files] = the directory written by ShardedScale.close after the
+   stores [ops]; [sizes_ok] = no shard exceeds 2^64 bytes of data + indices. *)
+Theorem C04_spec_reads_canonical : forall sp enc ienc,
+  cbits sp < 2 ^ 64 -> forall idec ddec,
+  (forall b, idec (ienc b) = Some b) -> (forall b, ddec (enc b) = Some b) ->
+  (forall b, b <> [] -> ienc b <> []) ->
+  forall ops id b,
+  sp_m sp < 60 -> ops_valid sp ops -> sizes_ok sp enc ienc ops -> In (id, b) ops ->
+  spec_fetch (sp_m sp) (sp_s sp) (sp_p sp) idec ddec (session_files sp enc ienc ops) id = SFound b.
+Proof. exact spec_reads_canonical. Qed.
+Print Assumptions C04_spec_reads_canonical.
+
+(* close_canonical, closed form: ShardedScale.close writes, for every shard
+   number k that received a chunk, the file
+     shard_bytes (desc_of ops k)  =  le64 words of the 2^m (start, end) pairs
+        (minishard number j at slot j, empty ranges elsewhere)
+        ++ data of the minishards in increasing number
+        ++ their encoded [3, n] indices,
+   where desc_of ops k lists, per used minishard, the stored set routed to it
+   (canonical entries: identifiers mk 0 .. mk max_rank, gaps empty). *)
+Theorem C04_close_canonical : forall sp enc ienc, cbits sp < 2 ^ 64 -> forall ops,
+  sp_m sp < 60 -> ops_valid sp ops -> sizes_ok sp enc ienc ops ->
+  let st := fst (run_cmc_stores sp enc [] ops) in
+  scale_close sp ienc st =
+  map (fun kv => (shard_file_name sp (fst kv), Ok (Some (shard_bytes sp enc ienc (desc_of sp ops (fst kv))))))
+      (sort_by_key st).
+Proof. exact scale_close_explicit. Qed.
+Print Assumptions C04_close_canonical.
+
+(* Shard.close returns normally for every shard of every valid session: the
+   struct.pack overflow and the "too many minishards" ShardedIOError are
+   unreachable; the file is  shard index ++ data ++ encoded minishard indices
+   (shard_bytes, see ShardCloseProofs.shard_close_explicit) *)
+Theorem C04_close_all_ok : forall sp enc ienc ops, cbits sp < 2 ^ 64 ->
+  sp_m sp < 60 -> ops_valid sp ops -> sizes_ok sp enc ienc ops ->
+  forall name r, In (name, r) (scale_close sp ienc (fst (run_cmc_stores sp enc [] ops))) ->
+  exists b, r = Ok (Some b).
+Proof. exact close_all_ok. Qed.
+Print Assumptions C04_close_all_ok.
+
+(* canonical_wf: every file written by a valid session satisfies the whole
+   layout predicate of the property statement:
+   - (parse) the file name parses back to a shard number below 2^shard_bits,
+     every slot of the shard index parses, the identifiers of every minishard
+     index are strictly increasing and < 2^64, every index and every chunk
+     range lies inside the file;
+   - (slot) every identifier listed at slot k of shard file sh has minishard
+     number k and shard number sh;
+   - (disjoint) the shard index, the minishard indices and the non-empty chunk
+     ranges are pairwise disjoint. *)
+Theorem C04_canonical_wf : forall sp enc ienc idec,
+  cbits sp < 2 ^ 64 -> (forall b, idec (ienc b) = Some b) -> (forall b, b <> [] -> ienc b <> []) ->
+  forall ops name f,
+  sp_m sp < 60 -> ops_valid sp ops -> sizes_ok sp enc ienc ops ->
+  In (name, f) (session_files sp enc ienc ops) ->
+  wf_all (wf_file (sp_m sp) (sp_s sp) (sp_p sp) idec name f) = true.
+Proof. exact canonical_wf. Qed.
+Print Assumptions C04_canonical_wf.
+
+Example C04_spec_reads_hypotheses_inhabited :
+  let sp := {| sp_m := 2; sp_s := 2; sp_p := 0 |} in
+  let ops := [(10, [9; 9; 9]); (8, [2; 2; 2]); (26, [])] in
+  cbits sp < 2 ^ 64 /\ sp_m sp < 60 /\ ops_valid sp ops /\
+  sizes_ok sp (fun b => b) (fun b => b) ops /\
+  spec_fetch 2 2 0 (fun b => Some b) (fun b => Some b) (session_files sp (fun b => b) (fun b => b) ops) 10
+    = SFound [9; 9; 9].
+Proof. exact top_hyps_example. Qed.
 
 (* The dataset that refuted the property before /repo commit 49f2991 (3x4x2
    grid, sizes 24x32x16, chunk 8, minishard_bits 2, shard_bits 2, preshift 0,
@@ -81,17 +158,14 @@ Proof. exact old_witness_reads. Qed.
    kernel: 2x3x2 grid, m = s = p = 1, stored in reverse order; the guard holds,
    the specification reader returns exactly the stored bytes for all 12
    chunks and every file satisfies WF.
-   FULL statements (not proved: they need the byte-level parse lemmas for the
-   file assembled by Shard.close):
-     spec_reads_canonical_on_guard : used_minishards_prefix (ids ops) = true ->
-        S id = Some b -> spec_fetch (files (close (run ops))) id = SFound b
-     canonical_wf : used_minishards_prefix (ids ops) = true ->
-        every file of  files (close (run ops))  satisfies wf_all. *)
-Theorem C04_spec_reads_on_guard_instance :
+   (the general statements are C04_spec_reads_canonical and C04_canonical_wf
+   above; this instance also exercises the accessor-level routing from chunk
+   origins) *)
+Theorem C04_reads_instance_2x3x2 :
   used_minishards_prefix 1 1 1 ok_ids = true /\
   all_ok (fst ok_session) = true /\ length ok_ids = 12%nat /\
   forallb (fun id => spec_result_eqb (spec_fetch 1 1 1 raw_sdec raw_sdec ok_files id) (ok_payload id)) ok_ids = true /\
   forallb (fun id => outcome_eqb (scale_fetch ok_sp raw_dec raw_dec (dir_of 1 ok_files) id) (ok_payload id)) ok_ids = true /\
   forallb (fun nf => wf_all (wf_file 1 1 1 raw_sdec (fst nf) (snd nf))) ok_files = true.
 Proof. exact guard_example. Qed.
-Print Assumptions C04_spec_reads_on_guard_instance.
+Print Assumptions C04_reads_instance_2x3x2.
